@@ -204,10 +204,23 @@ func (s *Session) execDiffLinks(oslot, nslot int) (string, string) {
 	err := nw.DiffLinks(s.ctx, old, func(rem bool, link interface{}) (bool, error) {
 		name, ok := link.(string)
 		if !ok {
-			if viol == "" {
-				viol = fmt.Sprintf("node diff reported a link that is not a name (%T)", link)
+			// A clone that was never persisted itself is not "a persisted version" held by name:
+			// it holds the version's (clean, loaded) top node as an object, and the diff reports
+			// that object.  It is read as the name it was loaded from; any other object is a
+			// violation (C07: nodes are reported by name).
+			side := s.bases[nslot]
+			if rem {
+				side = s.bases[oslot]
 			}
-			name = fmt.Sprintf("%T", link)
+			vn := mast.VerifCachedNode(link)
+			if side != nil && side.byPointer && vn != nil && !vn.Dirty && vn.HasSource {
+				name = vn.Source
+			} else {
+				if viol == "" {
+					viol = fmt.Sprintf("node diff reported a link that is not a name (%T)", link)
+				}
+				name = fmt.Sprintf("%T", link)
+			}
 		}
 		if rem {
 			evs = append(evs, "-"+name)
